@@ -970,6 +970,14 @@ class SReal(Sym):
     def isnan(self):
         return mkbool(self.nan) if not isinstance(self.nan, builtins.bool) else self.nan
 
+    def __format__(self, spec):
+        from . import tokens
+        return tokens.token_for(self)
+
+    def __str__(self):
+        from . import tokens
+        return tokens.token_for(self)
+
 
 NAN = None  # set below
 
